@@ -61,7 +61,6 @@ def wrappers(u):
         lit = re.search(r'const\s+%s\s*:\s*&str\s*=\s*("[^"]*")' % const, f.body)
         if not lit:
             raise LostAnchor("directive text constant in %s" % fn)
-        f.replace_all(r"const\s+(\w+)\s*:\s*&str\s*=", r"const \1: &'static str =", "R7", regex=True, min_count=1)
         f.before_stmt("check_for_boolean_directive(", "proof { reveal_strlit(%s); assert(%s@ =~= %s); }\n    " % (lit.group(1), lit.group(1), namefn))
         out.append(f)
     return out
